@@ -206,6 +206,8 @@ class ExprMixin:
         if isinstance(base, VRef):
             d = self.field_decl(base.cls, attr)
             if d is not None and not d[2]:
+                if (d[0], attr) in self.reg.interference and (d[0], attr) in getattr(self, "active_interference", ()):
+                    st = self.inject_interference(st, base, d[0], attr)
                 return k(st, self.read_field(st, base, attr))
             if d is not None and d[2]:
                 return self.get_dyn_attr(st, base, attr, k, where)
@@ -293,6 +295,27 @@ class ExprMixin:
         else:
             outs += self.raise_(s2, "AttributeError", f"{attr} unset at {where}")
         return outs
+
+    def inject_interference(self, st: State, obj: VRef, owner: str, field: str, force=False) -> State:
+        spec = self.reg.interference[(owner, field)]
+        lock = self.read_field(st, obj, spec["lock"])
+        if lock.t.s in st.held and not force:
+            return st
+        cur = self.read_field(st, obj, field)
+        if spec["kind"] == "append":
+            suffix = self.arbitrary(cur.t.sort, "rely_suffix")
+            new = type(cur)(seq_concat(cur.t, suffix))
+            # ghost bookkeeping of the interfering thread is applied by the spec's rely hook, if any
+        elif spec["kind"] == "drop-prefix":
+            n = self.arbitrary(INT, "rely_n")
+            st = st.assume(And(Le(I(0), n), Le(n, seq_len(cur.t))))
+            new = type(cur)(seq_extract(cur.t, n, Sub(seq_len(cur.t), n)))
+            hk = self.reg.specfns.get(f"rely:{owner}.{field}")
+            if hk is not None:
+                st = hk(self, st, obj, cur, n)
+        else:
+            raise Unsupported("interference kind")
+        return self.write_field(st, obj, field, new)
 
     def try_cls(self, name):
         try:
